@@ -16,6 +16,9 @@ Definition lc_rem_fix := gc_rem_pending_finalises.
 Definition lc_sweep_fix := gc_sweep_nulls_first.
 Definition lc_defer_fix := gc_set_defers_in_sweep.
 Definition lc_shape := gc_life_shape.
+Definition lc_rule : nat -> nat := gc_mitems_rule.
+Definition lc_keep_step := keep_step.
+Definition lc_s_in := s_in.
 Definition lc_terminate : route -> list nat -> st -> st :=
   terminate gc_mitems_rule gc_rem_pending_finalises gc_sweep_nulls_first gc_set_defers_in_sweep main_registers_atexit main_tears_down_after_return exception_error_exits.
 Definition lc_main_atexit := main_registers_atexit.
@@ -26,4 +29,4 @@ Definition lc_z0 : Z := 0%Z.
 Definition lc_n0 : N := 0%N.
 
 Extraction Language OCaml.
-Extraction "../ocaml/gen/Lifecycle.ml" lc_init lc_step lc_will_sweep lc_fin lc_free lc_nitems lc_sp_init lc_sp_step lc_rem_fix lc_sweep_fix lc_defer_fix lc_shape lc_terminate lc_main_atexit lc_main_after lc_err_exit lc_z0 lc_n0.
+Extraction "../ocaml/gen/Lifecycle.ml" lc_init lc_step lc_will_sweep lc_fin lc_free lc_nitems lc_sp_init lc_sp_step lc_rem_fix lc_sweep_fix lc_defer_fix lc_shape lc_rule lc_keep_step lc_s_in lc_terminate lc_main_atexit lc_main_after lc_err_exit lc_z0 lc_n0.
